@@ -45,6 +45,8 @@ ASSUMPTIONS = [
     "LinearStretch is in the quantifier only with its default slope/intercept (CustomNormalization cannot set them); other values: correspondence only",
     "limits clause: (a) on the limits the configuration DECLARES (explicit manual vmin/vmax incl. half-specified ones, a missing side being the data min/max; centered with half_range), (b) on the limits the object reports. In lazy mode (no data= at construction) the limits are recomputed from the argument: manual limits are probed with data ∪ {limits} (min/max unchanged), automatic centered limits likewise with a conditioning-aware slack at 0 (eps**power), quantile limits through their consequence that pixels at/beyond the reported limits sit at 0/1",
     "floating point: range/monotone/limits/inverse clauses are evaluated with slack 0 on the linear float64/int path, 1e-12 (float64) or 1e-4 (float32) after a transcendental stretch, 1e-9 (float64) / 5e-4 (float32) for S∘S.inverse",
+    "automatic limits are read as declared by the interval type (centered: vcenter -/+ max|x - vcenter|, nothing clipped; manual without limits: data min/max): the reported limits must equal them (1e-12 relative, 1e-5 on float32) and pixel values more than 1e-3 of the range apart must be displayed differently (float64/int path)",
+    "every input form of one declared configuration (keyword shorthand with one or both limits / quantiles, dict, NormalizationConfig) through the public show_2d must draw the identical image (ax.images[0]), and pixels at/beyond a declared limit are black/white; show_2d has no CustomNormalization-instance form and ignores keyword overrides next to a preset string, so those are not forms",
     "0-d and empty arrays, bool/complex dtypes and float16 are outside the quantifier (bool: correspondence only)",
 ]
 EXPLANATION = ("Theorems in Props/C20.lean are about Generated/Stretch.lean (regenerated from the source each run) and Model/Norm.lean; "
@@ -271,6 +273,11 @@ def gen_cfg(rng, arr):
             cfg["vcenter"] = 0.0
         elif r < 0.45:
             cfg["vcenter"] = 0
+        elif r < 0.6:
+            # lower-heavy (centre at/near the data maximum), upper-heavy (at/near the minimum), symmetric (midpoint)
+            cfg["vcenter"] = rng.choice([fmax, fmin, 0.5 * (fmin + fmax), fmax - 0.1 * span, fmin + 0.1 * span])
+            if rng.chance(0.3) and abs(cfg["vcenter"]) < 2 ** 50:
+                cfg["vcenter"] = int(round(cfg["vcenter"]))
         else:
             cfg["vcenter"] = maybe_int(fmin + span * rng.uniform(-0.5, 1.5))
         r = rng.random()
@@ -643,6 +650,38 @@ def predicate_norm(ctx, case, impl):
             return
     elif declared is not None:
         ctx.dist["norm:limits-declared-skipped(lo>=hi)"] += 1
+    # (3a') automatic limits declared by the interval TYPE: centered = vcenter -/+ max|x - vcenter| (symmetric, nothing clipped),
+    # manual without limits = data min/max.  The reported limits must be those, every finite pixel lies inside them, and
+    # (strictly monotone stretch) clearly distinct pixel values are displayed differently.
+    auto_lim = None
+    if it == "centered" and cfg["half_range"] is None:
+        f64 = fin.astype(np.float64)
+        vc = float(cfg["vcenter"])
+        h_ = float(np.max(np.abs(f64 - vc)))
+        auto_lim = (vc - h_, vc + h_, max(abs(vc), h_, float(np.max(np.abs(f64)))))
+    elif it == "manual" and cfg["vmin"] is None and cfg["vmax"] is None:
+        auto_lim = (float(fin.min()), float(fin.max()), float(np.max(np.abs(fin.astype(np.float64)))))
+    if auto_lim is not None and impl.get("vmin") is not None:
+        olo_, ohi_, mag = auto_lim
+        tolv = (1e-5 if f32 else 1e-12) * max(mag, 1e-300)
+        rlo, rhi = impl["vmin"], impl["vmax"]
+        ctx.dist["norm:limits-auto-value-checked"] += 1
+        if not (abs(rlo - olo_) <= tolv and abs(rhi - ohi_) <= tolv):
+            clipped = [x for x in fin.tolist() if x < rlo - tolv or x > rhi + tolv][:3]
+            ctx.pred_fail("limits-auto-value:" + sig,
+                          "the automatic limits are not the ones the interval type declares (centered: vcenter -/+ max|x - vcenter|; manual: data min/max)"
+                          + (" - finite pixels inside the declared interval are clipped" if clipped else ""),
+                          case, observed={"vmin": rlo, "vmax": rhi, "pixels_outside_reported_limits": clipped}, required=[olo_, ohi_])
+            return
+        if not f32 and ohi_ > olo_:
+            gap = 1e-3 * (ohi_ - olo_)
+            prs = sorted(((float(x), y) for x, y in zip(flat.tolist(), impl["out"])
+                          if y is not None and not (isinstance(x, float) and (x != x or math.isinf(x)))), key=lambda p_: p_[0])
+            for (x0, y0), (x1, y1) in zip(prs, prs[1:]):
+                if x1 - x0 >= gap and not (y1 > y0):
+                    ctx.pred_fail("limits-auto-distinct:" + sig, "two clearly distinct pixel values inside the automatic interval are displayed identically (clipped)",
+                                  case, observed={"x": [x0, x1], "out": [y0, y1], "vmin": rlo, "vmax": rhi}, required="out(x0) < out(x1)")
+                    return
     # (3b) the limits the interval itself reports
     lo, hi = impl.get("vmin"), impl.get("vmax")
     if lo is None or hi is None or not (lo < hi):
@@ -1233,11 +1272,137 @@ def one_show(ctx, drv, case):
                 "shape": case["arrays"][0]["shape"], "built": {k: impl.get(k) for k in ("stretch", "interval")}}, limit=6)
 
 
+# ---- sub-stream "forms": every input form of ONE declared configuration through the public show_2d must draw the same image
+
+def gen_forms_case(rng, i):
+    np = _np()
+    d = None
+    while d is None:
+        d = gen_data(rng)
+        if len(d["values"]) < 4:
+            d = None
+    n = len(d["values"])
+    divs = [k for k in range(1, n + 1) if n % k == 0]
+    r = rng.choice(divs)
+    d = dict(d)
+    d["shape"] = [r, n // r]
+    arr = build_array(d).astype(np.float32)            # what show_2d normalises (it casts real ndarrays to float32)
+    flat = arr.ravel()
+    fin = flat[np.isfinite(flat)]
+    if len(set(fin.tolist())) < 2:
+        return gen_forms_case(rng.fork(7), i)
+    fmin, fmax = float(fin.min()), float(fin.max())
+    span = fmax - fmin
+    kind = "manual" if i % 3 != 2 else "quantile"
+    decl = {}
+    if kind == "manual":
+        which = rng.weighted([("both", 3), ("vmin", 3), ("vmax", 3)])
+        lo = nice(rng, fmin + span * rng.uniform(-0.2, 0.45))
+        hi = nice(rng, fmin + span * rng.uniform(0.55, 1.2))
+        if rng.chance(0.3):
+            lo, hi = int(math.floor(lo)), int(math.ceil(hi))
+        if rng.chance(0.2) and fmin < 0 < fmax:
+            z = rng.choice([0, 0.0, -0.0])
+            lo, hi = (z, hi if hi > 0 else fmax) if rng.chance(0.5) else (lo if lo < 0 else fmin, z)
+        if not lo < hi:
+            lo, hi = fmin, fmax
+        if which in ("both", "vmin"):
+            decl["vmin"] = lo
+        if which in ("both", "vmax"):
+            decl["vmax"] = hi
+        if rng.chance(0.5):
+            decl["stretch_type"] = rng.choice(["linear", "logarithmic", "asinh"])
+    else:
+        which = rng.weighted([("both", 3), ("lower", 2), ("upper", 2)])
+        a, b = round(rng.random() * 0.4, 2), round(1 - rng.random() * 0.4, 2)
+        if which in ("both", "lower"):
+            decl["lower_quantile"] = a
+        if which in ("both", "upper"):
+            decl["upper_quantile"] = b
+    return {"stream": "forms", "kind": kind, "decl": [[k, v] for k, v in decl.items()], "array": d}
+
+
+def one_forms(ctx, drv, case):
+    """show_2d(img, <keyword shorthand>) vs norm=<dict> vs norm=NormalizationConfig(...) of the same declared configuration:
+    the drawn images (ax.images[0]) must be identical, and pixels at/beyond a declared limit are black / white."""
+    np = _np()
+    cn = _cn()
+    from quantem.core.visualization import visualization as vis
+    arr = build_array(case["array"])
+    decl = {k: v for k, v in case["decl"]}
+    kind = case["kind"]
+    explicit = dict(decl)
+    explicit["interval_type"] = kind
+    forms = [("keywords", dict(decl)), ("dict", {"norm": dict(explicit)}), ("NormalizationConfig", {"norm": cn.NormalizationConfig(**explicit)})]
+    drawn = {}
+    for name, kw in forms:
+        fig, ax = _figax()
+        try:
+            vis.show_2d(arr, figax=(fig, ax), **kw)
+            drawn[name] = np.array(ax.images[-1].get_array(), dtype=np.float64)
+        except Exception as e:  # noqa
+            drawn[name] = err_name(e)
+    ctx.count()
+    ctx.dist["forms:kind:" + kind] += 1
+    ctx.dist["forms:declared:" + "+".join(sorted(decl))] += 1
+    dt = case["array"]["dtype"]
+    ctx.mark(("forms", kind, tuple(sorted(decl)), dt, tuple(type(v).__name__ for v in decl.values())))
+    sig = f"show_2d:{dt}:{kind}:{'+'.join(sorted(decl))}"
+    a32 = arr.astype(np.float32)
+    flat = a32.ravel()
+    fin = flat[np.isfinite(flat)]
+    cfg = dict(DEFAULT_CFG)
+    cfg.update(explicit)
+    ok, why = admissible(cfg, a32)
+    if not ok:
+        ctx.dist["forms:outside-quantifier:" + why] += 1
+        return
+    # (i) all input forms draw the same image
+    ref_name, ref = "NormalizationConfig", drawn["NormalizationConfig"]
+    for name, _ in forms:
+        img = drawn[name]
+        same = (isinstance(img, str) and isinstance(ref, str) and img == ref) or \
+               (not isinstance(img, str) and not isinstance(ref, str) and img.shape == ref.shape and np.array_equal(img, ref, equal_nan=True))
+        if not same:
+            if isinstance(img, str) or isinstance(ref, str):
+                obs = {name: img if isinstance(img, str) else "image", ref_name: ref if isinstance(ref, str) else "image"}
+            else:
+                idx = np.argwhere(np.any(img != ref, axis=-1))[0].tolist()
+                obs = {"pixel": idx, "value": float(a32[tuple(idx)]), name: img[tuple(idx)].tolist(), ref_name: ref[tuple(idx)].tolist()}
+            ctx.pred_fail("forms-differ:" + sig, f"show_2d draws a different image for the {name} form than for the {ref_name} form of the same configuration",
+                          case, observed=obs, required="identical images for every input form")
+            return
+    if isinstance(ref, str):
+        ctx.pred_fail("raises:" + sig, f"show_2d raised {ref} on an admissible array/configuration", case, observed=ref, required="image")
+        return
+    # (ii) the declared limits are sent to 0 / 1: pixels at or beyond them are black / white (gray colormap)
+    if kind == "manual":
+        lo = decl.get("vmin", float(fin.min()))
+        hi = decl.get("vmax", float(fin.max()))
+        if lo < hi:
+            ctx.dist["forms:limits-clause-checked"] += 1
+            for name, _ in forms:
+                img = drawn[name]
+                level = img[..., 0]
+                for idx in np.argwhere(np.isfinite(a32)):
+                    x = float(a32[tuple(idx)])
+                    want = 0.0 if x <= lo else (1.0 if x >= hi else None)
+                    if want is not None and abs(float(level[tuple(idx)]) - want) > 1e-9:
+                        ctx.pred_fail("forms-limits:" + sig, f"{name} form: a pixel at/beyond the declared limit is not drawn black/white",
+                                      case, observed={"pixel": idx.tolist(), "x": x, "level": float(level[tuple(idx)]), "vmin": lo, "vmax": hi}, required=want)
+                        return
+    ctx.sample({"stream": "forms", "declared": case["decl"], "dtype": dt, "shape": case["array"]["shape"], "forms": [n for n, _ in forms],
+                "identical": True}, limit=8)
+
+
 def stream_show(ctx, drv):
     try:
         for i in range(ctx.n(240, 3000)):
             rng = ctx.rng.fork(4_000_000 + i)
             one_show(ctx, drv, gen_show_case(rng, i))
+        for i in range(ctx.n(90, 900)):
+            rng = ctx.rng.fork(5_000_000 + i)
+            one_forms(ctx, drv, gen_forms_case(rng, i))
     finally:
         if "fa" in _FIG:
             import matplotlib.pyplot as plt
@@ -1268,13 +1433,13 @@ def replay(ctx, rep):
     if case is None:
         ds = rep.get("correspondence_disagreements") or rep.get("disagreements") or [{}]
         case = ds[0].get("case")
-    if not case or case.get("stream") not in ("norm", "stretch", "resolve", "show"):
+    if not case or case.get("stream") not in ("norm", "stretch", "resolve", "show", "forms"):
         print("replay: no replayable case in file (tie-only report); re-running the quick streams")
         run(ctx)
         return True
     drv = Driver("C20")
     try:
-        {"norm": one_norm, "stretch": one_stretch, "resolve": one_resolve, "show": one_show}[case["stream"]](ctx, drv, case)
+        {"norm": one_norm, "stretch": one_stretch, "resolve": one_resolve, "show": one_show, "forms": one_forms}[case["stream"]](ctx, drv, case)
     finally:
         drv.close()
     return True
